@@ -20,7 +20,7 @@ MANIFEST = {
 }
 MANIFEST["text"] += " " + (
     'Added after the seeding waves: routes that go around a block twice (the same directed edge used twice) on the cycle graphs.')
-BUDGET = {"quick": 420, "thorough": 3000}
+BUDGET = {"quick": 900, "thorough": 3000}
 RULE = ("states = path states checked for existence, transitions = consecutive pairs checked against the move relation, traces "
         "validated = nodes-only views computed and checked; non-trivial = the path changes state at least once; outcomes = (index, path shape).")
 ASSUMPTIONS = ["linked edges only on the in-memory map (as in the statement)"]
